@@ -2,8 +2,8 @@
 import vf
 from monitors import policy_model as pm
 
-KEYS_FULL = "none,oct:64,oct:32,oct:256,rsa:2048,rsapss:2048,ec:P-256,ec:P-384,ec:P-521,ec:secp256k1,okp:Ed25519,okp:Ed448"
-KEYS_QUICK = "none,oct:64,oct:32,rsa:2048,ec:P-256,ec:P-384,okp:Ed25519"
+KEYS_FULL = "none,oct:64,oct:32,oct:256,rsa:2048,rsapss:2048,ec:P-256,ec:P-384,ec:P-521,ec:secp256k1,ec:brainpoolP256r1,ec:brainpoolP384r1,ec:brainpoolP512r1,ec:secp224r1,okp:Ed25519,okp:Ed448"
+KEYS_QUICK = "none,oct:64,oct:32,rsa:2048,ec:P-256,ec:P-384,ec:brainpoolP512r1,okp:Ed25519"
 
 
 def spec(tier):
